@@ -534,6 +534,8 @@ def stream_rules(facts, rep, E):
                 continue
             viol = None
             kind = None
+            skipped_paths = []
+            bulk_seen = short in ("read_bytes", "write_bytes")      # a zero-length run makes no access at all
             for p in paths:
                 if p.end == "loop":
                     continue
@@ -595,6 +597,12 @@ def stream_rules(facts, rep, E):
                 elif kind and kind.startswith("via:"):
                     if writes:
                         viol = "delegating method also moves the cursor"
+                if delegated is None and err is False and p.end == "ret" and not any(
+                        e["k"] == "call" and e["callee"] and e["callee"].startswith(prefix) and e["callee"] != b.name for e in p.events):
+                    skipped_paths.append((bool(writes), "; ".join(fmt(c_[1])[:50] for c_ in p.conds[-2:])))
+            if kind == "direct" and skipped_paths and not viol and not bulk_seen:
+                moved, conds_ = skipped_paths[0]
+                viol = "returns Ok%s without making the positional call (under [%s]): the stream call does not behave like the positional call at the cursor" % (" and moves the cursor" if moved else "", conds_)
             if kind is None:
                 rep.inconc(R7, "%s: no delegation recognised" % b.name)
             elif viol:
